@@ -225,3 +225,107 @@ def r_cox_reduction(A, ctx, scope, rule="R-COX-RED"):
                         f"events share a time (times {tm}, censoring {s})",
                    loc=loc(cls.find_method("value"), cls.find_method("value").node))
     ctx.floor(rule, n_ob, scope.get("floor", 15))
+
+
+def r_replicated_rows(A, ctx, scope, rule="R-RED-REPL"):
+    """C14: integer sample weights are replicated rows"""
+    from .kernels import make_obj
+    prog = A.prog
+    wq = next((c for c in prog.datafits if c.name == "WeightedQuadratic"), None)
+    q = next((c for c in prog.datafits if c.name == "Quadratic"), None)
+    if wq is None or q is None:
+        raise AnalysisError("WeightedQuadratic / Quadratic missing")
+    ctx.rule(rule, "WeightedQuadratic with integer sample weights (2, 1) on a two-row design is Quadratic "
+             "on the design with the first row replicated: value, coordinate gradients, coordinate "
+             "Lipschitz constants and the intercept step are equal terms")
+    vals = {"x00": 0.9, "x01": -0.4, "x10": 0.3, "x11": 1.2, "y0": 1.1, "y1": -0.6, "w0": 0.35, "w1": -0.2}
+    rg = Region(vals)
+    L = RegionLifter(prog, rg)
+    X = Mat([Vec([sym("x00"), sym("x01")]), Vec([sym("x10"), sym("x11")])])
+    y = Vec([sym("y0"), sym("y1")])
+    Xr = Mat([Vec(X[0]), Vec(X[0]), Vec(X[1])])
+    yr = Vec([y[0], y[0], y[1]])
+    w = Vec([sym("w0"), sym("w1")])
+    wobj = Obj(wq, {"sample_weights": Vec([const(2), const(1)])})
+    qobj = Obj(q, {})
+    n = 0
+    try:
+        L.call_function(wq.find_method("initialize"), [X, y], self_obj=wobj)
+        L.call_function(q.find_method("initialize"), [Xr, yr], self_obj=qobj)
+        Xw, Xrw = L.dot(X, w), L.dot(Xr, w)
+        pairs = [("value", L.call_function(wq.find_method("value"), [y, w, Xw], self_obj=wobj),
+                  L.call_function(q.find_method("value"), [yr, w, Xrw], self_obj=qobj)),
+                 ("intercept_update_step",
+                  L.call_function(wq.find_method("intercept_update_step"), [y, Xw], self_obj=wobj),
+                  L.call_function(q.find_method("intercept_update_step"), [yr, Xrw], self_obj=qobj))]
+        lw = L.call_function(wq.find_method("get_lipschitz"), [X, y], self_obj=wobj)
+        lq = L.call_function(q.find_method("get_lipschitz"), [Xr, yr], self_obj=qobj)
+        for j in range(2):
+            pairs.append((f"gradient_scalar[{j}]",
+                          L.call_function(wq.find_method("gradient_scalar"), [X, y, w, Xw, j], self_obj=wobj),
+                          L.call_function(q.find_method("gradient_scalar"), [Xr, yr, w, Xrw, j], self_obj=qobj)))
+            pairs.append((f"get_lipschitz[{j}]", lw[j], lq[j]))
+    except (Unsupported, Raised) as e:
+        ctx.ob(rule, f"{wq.fq}::replicated-rows", None, detail=f"not lifted: {e}")
+        return
+    for nm, a, b in pairs:
+        n += 1
+        ok = R(a).equals(R(b))
+        ctx.ob(rule, f"{wq.fq}::{nm}", ok,
+               what=f"WeightedQuadratic.{nm} with sample weights (2, 1) = {rg.num(a):.5g} differs from "
+                    f"Quadratic.{nm} on the replicated design = {rg.num(b):.5g}",
+               loc=loc(wq.find_method(nm.split('[')[0]), wq.find_method(nm.split('[')[0]).node))
+    ctx.floor(rule, n, 6)
+
+
+def r_singleton_groups(A, ctx, scope, rule="R-RED-SINGLETON"):
+    """C14: a group penalty on groups of one feature is the weighted L1 penalty"""
+    prog = A.prog
+    g2 = next((c for c in prog.penalties if c.name == "WeightedGroupL2"), None)
+    w1 = next((c for c in prog.penalties if c.name == "WeightedL1"), None)
+    if g2 is None or w1 is None:
+        raise AnalysisError("WeightedGroupL2 / WeightedL1 missing")
+    ctx.rule(rule, "WeightedGroupL2 on singleton groups is WeightedL1 with the same weights: value, prox "
+             "and subdiff_distance are equal terms on every sign region (both values of positive, "
+             "coefficients and inputs of both signs and zero)")
+    n = 0
+    for positive in (False, True):
+        for wv, xv, gv in ((1.3, 2.0, -0.7), (-1.3, -2.0, 0.4), (0.0, 0.05, -2.0), (0.0, -0.05, 0.3),
+                           (0.6, -0.1, 1.5)):
+            key = f"{g2.fq}::positive={positive}::w={wv},x={xv},g={gv}"
+            try:
+                rg = Region({"alpha": 0.8, "s": 0.25, "wt0": 1.3, "wt1": 0.7, "wa": 0.37, "w0": wv, "x": xv,
+                             "g0": gv})
+                L = RegionLifter(prog, rg)
+                wts = Vec([sym("wt0"), sym("wt1")])
+                gobj = Obj(g2, {"alpha": sym("alpha"), "weights": wts, "grp_ptr": Vec([0, 1, 2]),
+                                "grp_indices": Vec([0, 1]), "positive": positive})
+                lobj = Obj(w1, {"alpha": sym("alpha"), "weights": wts, "positive": positive})
+                wsym = sym("w0") if wv != 0 else const(0)
+                coef = Vec([sym("wa"), wsym])
+                pairs = [("value", L.call_function(g2.find_method("value"), [coef], self_obj=gobj),
+                          L.call_function(w1.find_method("value"), [coef], self_obj=lobj)),
+                         ("prox", L.call_function(g2.find_method("prox_1group"), [Vec([sym("x")]), sym("s"), 1],
+                                                  self_obj=gobj)[0],
+                          L.call_function(w1.find_method("prox_1d"), [sym("x"), sym("s"), 1], self_obj=lobj)),
+                         ("subdiff_distance",
+                          L.call_function(g2.find_method("subdiff_distance"), [coef, Vec([sym("g0")]), Vec([1])],
+                                          self_obj=gobj)[0],
+                          L.call_function(w1.find_method("subdiff_distance"), [coef, Vec([sym("g0")]), Vec([1])],
+                                          self_obj=lobj)[0])]
+            except (Unsupported, Raised) as e:
+                ctx.ob(rule, key, None, detail=f"not lifted: {e}")
+                continue
+            for nm, a, b in pairs:
+                n += 1
+                ok = R(a).equals(R(b))
+                try:
+                    na, nb = rg.num(a), rg.num(b)
+                    desc = f"{na:.5g} vs {nb:.5g}"
+                except Unsupported:
+                    desc = "terms differ"
+                ctx.ob(rule, key + f"::{nm}", ok,
+                       what=f"WeightedGroupL2(positive={positive}) on singleton groups: {nm} = {desc} for "
+                            f"WeightedL1 (w_j = {wv}, prox input {xv}, gradient {gv})",
+                       loc=loc(g2.find_method("value"), g2.find_method("value").node))
+    ctx.floor(rule, n, 20)
